@@ -1,5 +1,5 @@
 """C06 — applying repetition modifiers unrolls n back-to-back copies, once."""
-from . import progs, streamcheck
+from . import progs, streamcheck, libclause
 
 PROP = 'C06'
 
@@ -14,6 +14,7 @@ SPEC = streamcheck.StreamSpec(
                         reps=[1, 2, 2, 3], p_regrep=0.25, p_setreg=0.06),
     n_quick=1200, n_thorough=40000,
     nontrivial=nontrivial,
+    extra_check=libclause.c06_library,
     rule='random build programs with nesting <= 4 and counts 1-3 at every level (fixed and registry-provided); at every '
          'apply_modifiers: all counts 1 afterwards, operations outside repeated blocks untouched (identity, signature, '
          'link), a block whose last-ending operation is a relation leaf occupies n*T, second application changes nothing; '
